@@ -555,7 +555,11 @@ func main() {
 	}
 
 	// ---- built trees
-	cw := vh.NewCases(a, "From Coq Require Import List NArith ZArith.\nFrom Verif Require Import C24.Model C25.Model.\nImport ListNotations.\nOpen Scope Z_scope.\nOpen Scope N_scope.", "case", "mismatches", 400)
+	perShard := 400
+	if a.Thorough() {
+		perShard = 800 // thorough: <= ~32 case files (the coqc start-up cost per file dominates under load)
+	}
+	cw := vh.NewCases(a, "From Coq Require Import List NArith ZArith.\nFrom Verif Require Import C24.Model C25.Model.\nImport ListNotations.\nOpen Scope Z_scope.\nOpen Scope N_scope.", "case", "mismatches", perShard)
 	br := rng.Fork()
 	ncase := 0
 	id := func(n int) ast.Expr { return &ast.Ident{Name: fmt.Sprintf("a%d", n)} }
